@@ -1,5 +1,7 @@
 import Driver.Dispatcher
 import NextestModel.Model.Junit
+import NextestModel.Model.XmlText
+import Driver.Command
 open NextestModel NextestModel.Junit NextestModel.Dispatcher
 namespace Driver
 
@@ -52,6 +54,17 @@ def handleJunit : List String → Option String
       let st := statsOf {} evs
       let tot := s!"{(r.map Suite.tests).foldl (· + ·) 0}:{(r.map Suite.failures).foldl (· + ·) 0}:{(r.map Suite.errors).foldl (· + ·) 0}"
       pure s!"{"|".intercalate (r.map showSuite)}@{tot} ## sum:{st.finishedCount}:{st.passed}:{st.flaky}:{st.leaky}:{st.failed}:{st.execFailed}:{st.timedOut} ## st:{st.finishedCount}:{st.passed}:{st.flaky}:{st.leaky}:{st.failed}:{st.execFailed}:{st.timedOut}:{st.setupScriptsFinishedCount}:{st.failedSetupScriptCount}"
+  | _ => none
+
+/-- `xmltext <hex s> <hex strip_str(s)>` → `<system-out>;<system-err>`, both the hex of what `xml_string` makes of `s`; the third-party ANSI stripper is the table
+    `s ↦ strip_str(s)` handed in by the harness (the identity elsewhere: the text left after the first pass holds no ESC and
+    no C1 control) -/
+def handleXmlText : List String → Option String
+  | [s, a] => do
+    let s ← unhexChars s
+    let a ← unhexChars a
+    let h := hexChars (NextestModel.XmlText.xmlString (fun l => if l == s then a else l) s)
+    pure s!"{h};{h}"
   | _ => none
 
 end Driver
